@@ -52,7 +52,7 @@ old_meta = os.path.join(out, "meta.json")
 if os.path.exists(old_meta):
     try:
         prev = json.load(open(old_meta))
-        for k in ("needs", "history"):
+        for k in ("needs", "history", "out_of_scope"):
             if k in prev and k not in meta:
                 meta[k] = prev[k]
     except ValueError:
